@@ -163,7 +163,8 @@ Proof.
     assert (T: forall s c ds r, Frame (st_heap st) (tgt_of st t) (mk s (upd st1 a c) ds r)).
     { intros. eapply frame_tgt; [exact X1|eapply tgt_of_eq; eauto|apply frame_upd]. }
     destruct (Nat.leb (length l) 1); [eapply frame_ext; [exact X1|apply frame_here]|].
-    destruct (sortable_nums l); [apply T|]. destruct (sortable_strs l); [apply T|auto].
+    destruct (sortable_nums l); [apply T|]. destruct (sortable_strs l); [apply T|].
+    apply frame_of_res; auto. intros [l'|ds|] _; auto; try apply T; eapply frame_ext; [exact X1|apply frame_here].
   - apply with1_frame; auto. intros st1 v Et I1 X1. apply frame_assign; auto.
     eapply frame_ext; [exact X1|apply frame_here].
   - apply with1_frame; auto. intros st1 v Et I1 X1.
